@@ -7,7 +7,7 @@ Lemma status_ok_nonsuccess_err table st c :
   (let 'Code v _ := c in is_success v = false) ->
   exists e, status_ok_with table (Some st) = Err e.
 Proof.
-  intros Hc Hv. unfold status_ok_with. rewrite Hc. destruct c as [v sub].
+  intros Hc Hv. unfold status_ok_with, status_ok_gen. rewrite Hc. destruct c as [v sub].
   rewrite Hv. destruct sub as [[sv ssub]|].
   - destruct sv as [k|]; [|eauto]. destruct (lookup k table); eauto.
   - eauto.
@@ -15,7 +15,7 @@ Qed.
 
 Lemma status_ok_nocode_err table st :
   st_code st = None -> status_ok_with table (Some st) = Err (s2l "AttributeError").
-Proof. intros H. unfold status_ok_with. now rewrite H. Qed.
+Proof. intros H. unfold status_ok_with, status_ok_gen. now rewrite H. Qed.
 
 (* the exact class raised, as a function of the second-level code *)
 Definition class_for (table : list (str * str)) (sub : option code_view) : str :=
@@ -30,14 +30,14 @@ Lemma status_ok_exact table st v sub :
   st_code st = Some (Code v sub) -> is_success v = false ->
   status_ok_with table (Some st) = Err (class_for table sub).
 Proof.
-  intros Hc Hv. unfold status_ok_with, class_for. rewrite Hc, Hv.
+  intros Hc Hv. unfold status_ok_with, status_ok_gen, class_for. rewrite Hc, Hv.
   destruct sub as [[[k|] ?]|]; try reflexivity. destruct (lookup k table); reflexivity.
 Qed.
 
 Lemma status_ok_success table st v sub :
   st_code st = Some (Code v sub) -> is_success v = true ->
   status_ok_with table (Some st) = Ok tt.
-Proof. intros Hc Hv. unfold status_ok_with. now rewrite Hc, Hv. Qed.
+Proof. intros Hc Hv. unfold status_ok_with, status_ok_gen. now rewrite Hc, Hv. Qed.
 
 (* verify_core never says Some when status is a present non-success *)
 Lemma verify_core_nonsuccess i st v sub :
@@ -98,3 +98,33 @@ Qed.
 Lemma request_verify_version i :
   version_is_20 (r_version i) = false -> request_verify i = Ok None.
 Proof. intros H. unfold request_verify. now rewrite H. Qed.
+
+(* after the repair a response without <Status> is refused as well *)
+Lemma status_ok_absent table : status_ok_with table None = Err (s2l "StatusError").
+Proof. reflexivity. Qed.
+
+Lemma verify_core_absent_status i : status i = None -> verify_core i <> Ok (Some tt).
+Proof.
+  intros Hs. unfold verify_core.
+  destruct (id_mismatch i); [discriminate|].
+  destruct (negb (version_is_20 (version i))).
+  { destruct (version i); [destruct (ver_lt2 i) as [[|]|]|]; discriminate. }
+  destruct (asynchop i && negb (dest_ok i)); [discriminate|].
+  destruct (issue_ok i) as [[|]|]; try discriminate.
+  unfold status_ok. rewrite Hs, status_ok_absent. discriminate.
+Qed.
+
+(* accepted by verify_core => there is a <Status>, it has a code, and the top-level code is the Success URN *)
+Lemma verify_core_ok_success i :
+  verify_core i = Ok (Some tt) ->
+  exists st sub, status i = Some st /\ st_code st = Some (Code (Some STATUS_SUCCESS) sub).
+Proof.
+  intros H. destruct (status i) as [st|] eqn:Hs.
+  2:{ exfalso. now apply (verify_core_absent_status i Hs). }
+  destruct (st_code st) as [[v sub]|] eqn:Hc.
+  2:{ exfalso. now apply (verify_core_nocode i st Hs Hc). }
+  destruct (is_success v) eqn:Hv.
+  - unfold is_success in Hv. destruct v as [s|]; [|discriminate].
+    apply str_eqb_eq in Hv. subst s. now exists st, sub.
+  - exfalso. now apply (verify_core_nonsuccess i st v sub Hs Hc Hv).
+Qed.
